@@ -982,8 +982,9 @@ class FastSyncGroup(SyncGroupBase, XDP):
     """A :class:`SyncGroup` where all devices are EBPF programs"""
     license = "GPL"
 
-    properties = ArrayMap()
-    wkc_errors = properties.globalVar('I')
+    # DeviceVars belong to this map: share it with process sync groups
+    properties = ProcessSyncGroup.properties
+    wkc_errors = ProcessSyncGroup.wkc_errors
 
     def __init__(self, ec, devices, **kwargs):
         super().__init__(ec, devices, subprograms=devices, **kwargs)
